@@ -26,7 +26,7 @@ def few_methods(rng):
 
 
 def cases(O):
-    n = 700 if O.tier == "quick" else 4000
+    n = 700 if O.tier == "quick" else 12000
     cs = E.default_cases(O, "C12", n_quick=n, n_thorough=n, cfg_fn=few_methods)
     odd = ["﻿const a = 1;\r\nconst b = 'x';\r\n", "// café ☃\nconst s = 'été';\n", "﻿function f(a,b){\r\n return a + b;\r\n}\r\n",
            "", " ", "\n\n", "/* only a comment */", "#!/usr/bin/env node\nconsole.log(1)\n", "const t = `a\r\nb`;", "'use strict'",
@@ -121,7 +121,7 @@ def run(O, P):
                 jobs.append({"id": case["id"], "code": cin["code"], "file": cin["file"], "response": cout["result"]})
     # the hand-written inputs (BOM, CRLF, empty, shebang ...) first, then the not-modified results, then the rest, up to the tier's budget
     jobs.sort(key=lambda j: (0 if j["id"].startswith(("c12odd", "c12ref")) else 1 if (j["response"].get("metrics") or {}).get("status") == "notmodified" else 2))
-    jobs = jobs[:900 if O.tier == "quick" else 6000]
+    jobs = jobs[:900 if O.tier == "quick" else 18000]
     if jobs:
         res = vlib.run_node("pkg_wrapper.js", jobs)
         if res is None or len(res) != len(jobs):
